@@ -79,6 +79,9 @@ pub enum FileCase {
     /// ending in a blank, a no-break space): handed over by sources that do not go through text,
     /// they are stored and come back byte for byte
     BedRestEdges { opts: Opts },
+    /// entries whose `rest` ends in a control character that is not white space (DEL, ESC, SOH): text
+    /// sources strip white space from the end of a line, nothing else
+    BedRestCtl { opts: Opts },
     /// `n` identical entries on one stretch (a pile: the depth and its square leave the integers
     /// that single precision holds at 4 097) plus a few staggered ones
     BedPile { n: u32, opts: Opts },
@@ -150,6 +153,11 @@ pub fn expand(c: &FileCase) -> FileCase {
             let rests = ["name\t", "gene A ", "\t\t", " ", "x\u{a0}", "plain", "", "a\tb\t", "\tlead"];
             let mk = |off: u32| -> Vec<BItem> { rests.iter().enumerate().map(|(i, r)| BItem { s: off + i as u32, e: off + i as u32 + 2, rest: r.to_string() }).collect() };
             FileCase::Bed(BedCase { chroms: vec![BChrom { name: "c".into(), len: L, items: mk(0) }, BChrom { name: "d".into(), len: L, items: mk(3) }], extra_sizes: vec![], allow_ooo: false, autosql: None, opts: opts.clone() })
+        }
+        FileCase::BedRestCtl { opts } => {
+            let rests = ["name\t9\u{7f}", "x\u{1b}", "y\t\u{1}", "plain", "\u{7f}", "a\u{8}b\u{8}"];
+            let mk = |off: u32| -> Vec<BItem> { rests.iter().enumerate().map(|(i, r)| BItem { s: off + i as u32, e: off + i as u32 + 3, rest: r.to_string() }).collect() };
+            FileCase::Bed(BedCase { chroms: vec![BChrom { name: "c".into(), len: L, items: mk(0) }, BChrom { name: "d".into(), len: L, items: mk(2) }], extra_sizes: vec![], allow_ooo: false, autosql: None, opts: opts.clone() })
         }
         FileCase::BedPile { n, opts } => {
             let mut items: Vec<BItem> = (0..*n).map(|i| BItem { s: 10, e: 30, rest: format!("p{}", i) }).collect();
@@ -1140,7 +1148,14 @@ pub fn bed_family(tier: Tier) -> Box<dyn Iterator<Item = FileCase>> {
                             o.ips = ips;
                             o.compress = compress;
                             o.zoom = Zoom::Manual(vec![4]);
-                            v.push(FileCase::BedRestEdges { opts: o });
+                            v.push(FileCase::BedRestEdges { opts: o.clone() });
+                            for src2 in [SrcKind::Iter, SrcKind::SerialText, SrcKind::ParallelFile] {
+                                if src == SrcKind::Iter {
+                                    let mut o2 = o.clone();
+                                    o2.src = src2;
+                                    v.push(FileCase::BedRestCtl { opts: o2 });
+                                }
+                            }
                         }
                     }
                 }
@@ -2418,6 +2433,19 @@ impl Check for C08 {
             let zo = zo.clone();
             (0..8usize).step_by(step).map(move |li| FileCase::ZoomTool(bed_multi(si, li, &zo[(li * 3 + si) % zo.len()])))
         });
+        // the zoom tool on chromosomes of very different lengths (a short one first, a long one later)
+        let tools = tools.chain((0..5u32).flat_map(|arr| {
+            [false, true].into_iter().filter_map(move |two_pass| {
+                let mut o = Opts::base();
+                o.two_pass = two_pass;
+                o.ips = if two_pass { 1024 } else { 2 };
+                o.zoom = Zoom::Manual(vec![4, 64]);
+                match expand(&FileCase::BedUneven { arr, opts: o }) {
+                    FileCase::Bed(c) => Some(FileCase::ZoomTool(c)),
+                    _ => None,
+                }
+            })
+        }));
         Box::new(bed_zoom_family(tier).chain(tools).chain(uneven_cases(true).into_iter()).chain(mid_cases(true).into_iter()).chain(sparse_cases(true).into_iter()).chain({
             let mut v = vec![];
             for lay in 0..4u32 {
